@@ -393,7 +393,26 @@ func (w *world) execOp(ti, oi int, op *proto.Op, st *opState) {
 		}
 		w.objs[op.Mod].busyBy = ti
 		if op.Kind == proto.OpCompact {
-			ir.CompactUnused(m)
+			passes := op.Passes
+			if len(passes) == 0 {
+				passes = []string{"unused"}
+			}
+			for _, ps := range passes {
+				switch ps {
+				case "unused":
+					ir.CompactUnused(m)
+				case "types":
+					ir.CompactTypes(m)
+				case "reorder":
+					ir.ReorderTypes(m)
+				case "constants":
+					ir.CompactConstants(m)
+				case "expressions":
+					ir.CompactExpressions(m)
+				case "dedup":
+					ir.DeduplicateEmits(m)
+				}
+			}
 		} else {
 			if err := ir.InlineUserFunctions(m, func(*ir.Function) bool { return true }); err != nil {
 				st.res.Err = err.Error()
@@ -402,6 +421,17 @@ func (w *world) execOp(ti, oi int, op *proto.Op, st *opState) {
 		}
 		st.res.OK = true
 		st.res.Info = fmt.Sprintf("%016x", fp.Hash(m))
+
+	case proto.OpClone:
+		m, err := w.module(op.Mod)
+		if err != nil {
+			st.res.Err = err.Error()
+			return
+		}
+		c := ir.CloneModule(m)
+		st.res.OK = true
+		st.res.Info = fmt.Sprintf("%016x", fp.Hash(c))
+		w.publish(op.Dst, fmt.Sprintf("clone#%d(of %d)", op.Dst, op.Mod), c)
 
 	case proto.OpResolveInPlace:
 		m, err := w.module(op.Mod)
